@@ -260,7 +260,8 @@ namespace
             const double tol = 1e-6 * hot;
             if (!(t >= cold - tol && t <= hot + tol))
               {
-                const std::string kind = !(t == t) ? "not-a-number" : t > hot ? "above-ambient-and-adiabat" : "below-the-surface-temperature";
+                std::string kind = !(t == t) ? "not-a-number" : t > hot ? "above-ambient-and-adiabat" : "below-the-surface-temperature";
+                if (t > hot && t - hot <= 1e-5 * hot) kind += "-by-less-than-1e-5-relative";
                 ctx.violation(std::string("C20/slab/") + (s.model == 2 ? "plate model" : "mass conserving") + "/" + kind + (s.model != 2 ? (s.spline ? "/with-apply-spline" : "/without-spline") : ""), JObj().str("what", "slab temperature outside [surface temperature, max(ambient temperature, background adiabat at that depth)]").raw("model", describe(s))
                               .raw("point", jarr(p)).num("depth", d).num("temperature", t).num("ambient_temperature_without_the_slab_model", ambient).num("adiabat_at_depth", adiabat(d)).num("surface_temperature", cold).str("world", text).done());
                 return;
